@@ -1746,7 +1746,7 @@ class Interp:
         for fld, ty in spec.get("havoc_fields", {}).items():
             selfv = fr.env.get("self")
             curf = run.obj(selfv).fields.get(fld)
-            if isinstance(curf, Ref) and not isinstance(run.obj(curf), HObj):
+            if isinstance(curf, Ref) and not isinstance(run.obj(curf), HObj) and not ty.startswith("Opaque["):
                 self.havoc_like(curf, "loop!self.%s" % fld)      # in place: aliases (e.g. a running iterator) see it
             else:
                 run.obj(selfv).fields[fld] = reg.make_symbolic(self, ty, "loop!self.%s" % fld)
